@@ -87,14 +87,20 @@ def run_case(case, ctx):
     if amode in ('args', 'none'):
         shift_kw = 0.0
 
+    # the keyword of f: any name, also one that the wrapper's own constructor options carry (step, method, bounds, order)
+    kwname = ['shift', 'shift', 'step', 'method', 'bounds', 'order', 'rel_step'][(case['seed'] // 6) % 7]
+    if kwname != 'shift':
+        ctx.count('keyword_of_f_named_like_an_option_of_the_wrapper')
     if case['family'] == 'affine':
-        def f(z, s=1.0, shift=0.0):
+        def f(z, s=1.0, **kw_):
+            shift = kw_.get(kwname, 0.0)
             z = np.asarray(z).ravel()
             v = s * (A @ z) + b + shift
             return v[0] if gradient else v
         Jexact = scale_arg * A
     else:
-        def f(z, s=1.0, shift=0.0):
+        def f(z, s=1.0, **kw_):
+            shift = kw_.get(kwname, 0.0)
             z = np.asarray(z).ravel()
             v = s * np.sin(A @ z) * np.exp(B @ z) + shift
             return v[0] if gradient else v
@@ -152,7 +158,7 @@ def run_case(case, ctx):
             xin = x.astype(int_dtype)
             ctx.count('x_given_as:' + int_dtype)
     args = (scale_arg,) if amode in ('both', 'args') else ()
-    kwds = dict(shift=shift_kw) if amode in ('both', 'kwds') else {}
+    kwds = {kwname: shift_kw} if amode in ('both', 'kwds') else {}
     ctx.count('extra_arguments_given:' + amode)
     cls = nds.Gradient if gradient else nds.Jacobian
     try:
@@ -161,7 +167,7 @@ def run_case(case, ctx):
             if (case['seed'] // 6) % 3 == 0:
                 ctx.count('object_called_before_with_other_extra_arguments')
                 try:
-                    obj(np.array(x, copy=True), 3.0, shift=-2.5)
+                    obj(np.array(x, copy=True), 3.0, **{kwname: -2.5})
                 except Exception:
                     pass
                 del rec.calls[:]
